@@ -46,7 +46,7 @@ def classify(r):
     return "exit%s" % r.rc if r.rc >= 0 else "signal%d" % -r.rc
 
 
-def judge(exp, key, r, what):
+def judge(exp, key, r, what, verbose=False):
     """None or the reason the run is not a behaviour of the model"""
     res = classify(r)
     alts = exp.get(key)
@@ -55,6 +55,8 @@ def judge(exp, key, r, what):
     if res == "hang":
         return "hang (no termination within the timeout)"
     got = (res, bool(r.err.strip()))
+    if verbose and res in {a[0] for a in alts}:
+        got = (res, [a[1] for a in alts if a[0] == res][0])           # -v: stderr is never empty, only the status is judged
     if got not in alts:
         want = sorted(alts)[0]
         if res != want[0]:
@@ -81,6 +83,12 @@ def run(rep, tier, replay):
     scens += [dict(name="compress-short", args=["-1", "-n", "2"], input=plain[:60000], env={"VERIF_IO_SEED": "5"}),
               dict(name="decompress-short", args=["-d", "-n", "2"], input=bz2.compress(plain[:40000], 1), env={"VERIF_IO_SEED": "6"}),
               dict(name="copy-short", args=["-cdf"], input=text[:150000], env={"VERIF_IO_SEED": "7"})]
+    # -v (informational lines on stderr: only status and termination are judged), and a parent that left SIGINT / SIGTERM /
+    # SIGUSR1 / SIGUSR2 blocked across exec (setup_signals() must undo that, or SIGUSR1 never wakes the main thread)
+    scens += [dict(name="compress-v", args=["-1", "-n", "2", "-v"], input=plain[:80000], verbose=True),
+              dict(name="decompress-v", args=["-d", "-n", "2", "-v"], input=bz2.compress(plain[:50000], 1), verbose=True),
+              dict(name="compress-blocked-mask", args=["-1", "-n", "2"], input=plain[:80000], blocked=True),
+              dict(name="decompress-blocked-mask", args=["-d", "-n", "2"], input=bz2.compress(plain[:50000], 1), blocked=True)]
     if tier == "thorough":
         scens += [dict(name="compress-n8", args=["-1", "-n", "8"], input=plain * 3),
                   dict(name="decompress-n5", args=["-d", "-n", "5"], input=comp * 4),
@@ -96,8 +104,12 @@ def run(rep, tier, replay):
         scen["file"] = os.path.join(vlib.subdir("c21"), "stdin_" + scen["name"])
         with open(scen["file"], "wb") as f:
             f.write(scen["input"])
-        r = vlib.run([exe] + scen["args"], stdin_file=scen["file"], env=dict(env0, VERIF_IO_LOG=log), timeout=60)
-        if r.rc != 0 or r.err:
+        r = vlib.run([exe] + scen["args"], stdin_file=scen["file"], env=dict(env0, VERIF_IO_LOG=log), timeout=60, block_handled=bool(scen.get("blocked")))
+        if r.timed_out:
+            rep.violation("%s: the filter does not terminate even without any I/O failure" % scen["name"],
+                          dict(kind="fault", cls="filter-io-failure", scenario=scen["name"], injection="none", observed=dict(result="hang")))
+            continue
+        if r.rc != 0 or (r.err and not scen.get("verbose")):
             raise vlib.Infra("dry run of %s failed: rc=%s %r" % (scen["name"], r.rc, r.err[:200]))
         calls = [l.split() for l in open(log)]
         nread = sum(1 for c in calls if c[0] == "read" and c[1] == "0")
@@ -122,12 +134,13 @@ def run(rep, tier, replay):
         scen, key, env, what = job
         tr = os.path.join(trdir, "t%d.ndjson" % i)
         # standard input is a file: the number of read calls is the dry run's
-        return job, vlib.run([exe] + scen["args"], stdin_file=scen["file"], env=dict(env, VERIF_TRACE=tr), timeout=60, ignore_pipe=key[2]), tr
+        return job, vlib.run([exe] + scen["args"], stdin_file=scen["file"], env=dict(env, VERIF_TRACE=tr), timeout=60, ignore_pipe=key[2],
+                             block_handled=bool(scen.get("blocked"))), tr
     results3 = campaign.parallel(go, list(enumerate(jobs)), par=12)
     results = [(job, r) for job, r, tr in results3]
     for (scen, key, env, what), r in results:
         rep.add("evaluations")
-        why = judge(exp, key, r, what)
+        why = judge(exp, key, r, what, verbose=bool(scen.get("verbose")))
         if why:
             rep.violation("%s, %s: %s" % (scen["name"], what, why),
                           dict(kind="fault", cls="filter-io-failure", scenario=scen["name"], injection=what, model=sorted(map(list, exp[key])),
